@@ -1,5 +1,5 @@
 (* C06  Matching honours price limits, liquidity limits and lot sizes. *)
-From RQ Require Import Model.Num Model.Position Model.Matcher Model.MatcherRun Proofs.NumFacts Proofs.MatcherFacts Proofs.MatcherRunFacts.
+From RQ Require Import Model.Num Model.Position Model.Matcher Model.MatcherRun Proofs.NumFacts Proofs.MatcherFacts Proofs.MatcherRunFacts Gen.MatcherCap.
 Open Scope Q_scope.
 
 Section C06.
@@ -67,6 +67,15 @@ Example C06_example :
   volume_cap g i 4250 300 = 700 /\ volume_cap g i 4250 1000 = 0.
 Proof. split; vm_compute; reflexivity. Qed.
 
+(* Tie A: the liquidity-cap block of DefaultBarMatcher.match, regenerated from the source on every run (Gen/MatcherCap.v), is the model's
+   fill_amount / volume_cap - for a known volume and for a missing (NaN) one - and the turnover is booked right after the fill, cleared by update *)
+Theorem C06_code_cap_is_model : forall g i v turnover unfilled is_market,
+  gen_fill (m_volume_limit g) true v (m_volume_percent g) turnover (i_lot i) unfilled is_market = model_fill g i (Some v) turnover unfilled is_market /\
+  gen_fill (m_volume_limit g) false v (m_volume_percent g) turnover (i_lot i) unfilled is_market = model_fill g i None turnover unfilled is_market.
+Proof. intros. split; [apply gen_fill_eq|apply gen_fill_nan_eq]. Qed.
+Theorem C06_code_turnover_bookkeeping : turnover_booked_right_after_the_fill = true /\ update_clears_turnover = true.
+Proof. exact turnover_bookkeeping_ok. Qed.
+
 Print Assumptions C06_limit_up_down.
 Print Assumptions C06_inactive.
 Print Assumptions C06_fill_shape_and_cap.
@@ -74,3 +83,5 @@ Print Assumptions C06_market_no_rest.
 Print Assumptions C06_limit_rests.
 Print Assumptions C06_cap_bound.
 Print Assumptions C06_total_per_bar.
+Print Assumptions C06_code_cap_is_model.
+Print Assumptions C06_code_turnover_bookkeeping.
